@@ -1,0 +1,223 @@
+//! Node-slot allocator instrumentation for the verification harness
+//!
+//! This module only exists if the crate is compiled with
+//! `RUSTFLAGS="--cfg oxidd_verif"`. If switched on via [`enable()`], the index
+//! manager appends one [`Event`] per operation of its node-slot allocator
+//! (session begin/end, slot allocation, slot release, hand-over of free lists)
+//! to a global log that a test harness can retrieve via [`take_events()`] and
+//! replay against a model of the allocator.
+//!
+//! Conventions for the instrumented code:
+//!
+//! - Events that describe an operation on the shared store state are logged
+//!   while the store state mutex is held (right before it is released) and
+//!   carry a [`Shared`] snapshot of the state after the operation. Their order
+//!   in the log is the order of the critical sections.
+//! - Events that describe thread-local operations are logged by the acting
+//!   thread before the result of the operation becomes visible to any other
+//!   thread (e.g., an [`Kind::Alloc`] is logged before the edges pointing to
+//!   the new node are returned). Hence, the order of the log is consistent
+//!   with the happens-before order of the real execution.
+//! - Slot numbers are node IDs (slot index plus number of terminals), `0` means
+//!   "none". `start`/`end`/`allocated` values are slot indices.
+//!
+//! While the log is switched off (the default), every hook is a load of one
+//! relaxed atomic. Thread identifiers are shared with
+//! [`verif_locks`][super::verif_locks].
+
+use std::sync::Mutex;
+use std::sync::atomic::{AtomicBool, Ordering::Relaxed};
+
+/// Where the slot of a new node was taken from
+#[derive(Clone, Copy, PartialEq, Eq, Hash, Debug)]
+pub enum Source {
+    /// Head of the thread-local free list
+    LocalList,
+    /// Next uninitialized slot of the chunk pre-allocated by the thread
+    LocalChunk,
+    /// Head of a list popped from the shared stack; the rest of the list
+    /// becomes the thread-local free list
+    SharedList,
+    /// First slot of a chunk newly reserved from the shared state; the rest of
+    /// the chunk becomes the thread's pre-allocated range
+    Chunk,
+    /// A single uninitialized slot taken from the shared state (near the end
+    /// of the store)
+    Single,
+    /// Thread without local state for this store: head of a list popped from
+    /// the shared stack, the rest of the list is pushed again
+    ForeignList,
+    /// Thread without local state for this store: a single uninitialized slot
+    ForeignSingle,
+}
+
+impl Source {
+    /// Name used in the textual trace format
+    pub fn name(self) -> &'static str {
+        match self {
+            Source::LocalList => "local-list",
+            Source::LocalChunk => "local-chunk",
+            Source::SharedList => "shared-list",
+            Source::Chunk => "chunk",
+            Source::Single => "single",
+            Source::ForeignList => "foreign-list",
+            Source::ForeignSingle => "foreign-single",
+        }
+    }
+}
+
+/// Snapshot of the shared store state, taken under the store state mutex right
+/// after the logged operation
+#[derive(Clone, Copy, PartialEq, Eq, Hash, Debug)]
+pub struct Shared {
+    /// `SharedStoreState::node_count`
+    pub node_count: i64,
+    /// `SharedStoreState::allocated`
+    pub allocated: u32,
+    /// Number of free lists on the shared stack
+    pub lists: u32,
+    /// Background garbage collection state: 0 disabled, 1 init, 2 triggered
+    pub gc_state: u8,
+}
+
+/// What happened
+#[derive(Clone, Copy, PartialEq, Eq, Hash, Debug)]
+pub enum Kind {
+    /// `prepare_local_state()` installed the thread-local state for the store
+    /// (a `LocalStoreStateGuard` was created)
+    SessionBegin,
+    /// A thread dedicated to the store (pool worker, gc thread) set its
+    /// `current_store` for good
+    Attach,
+    /// A slot was handed out by `add_node()`
+    Alloc {
+        /// ID of the slot
+        slot: u32,
+        /// Where it was taken from
+        source: Source,
+        /// For the list sources: the `next_free` ID read from the slot. For
+        /// `LocalChunk`, `Chunk`: the thread's new `initialized` value.
+        /// Otherwise 0.
+        next: u32,
+    },
+    /// `add_node()` failed with out of memory. `delta` is the value that was
+    /// added to the shared node count.
+    AllocFail {
+        /// The value added to the shared node count
+        delta: i32,
+    },
+    /// `free_slot()` pushed the slot onto the thread-local free list; `prev`
+    /// is the previous head of that list (written into the slot). The list
+    /// stays with the thread (otherwise: [`Kind::FreeHandOver`]).
+    Free {
+        /// ID of the slot
+        slot: u32,
+        /// Previous head of the thread-local free list
+        prev: u32,
+    },
+    /// `free_slot()` on a thread without local state for this store: the slot
+    /// was put in front of the list popped from the shared stack (`prev`, 0 if
+    /// the stack was empty) and the list was pushed again
+    ForeignFree {
+        /// ID of the slot
+        slot: u32,
+        /// Head of the popped list or 0
+        prev: u32,
+    },
+    /// `free_slot()` pushed the slot onto the thread-local free list (as for
+    /// [`Kind::Free`]) and then handed that list over to the shared stack (the
+    /// local node count delta reached `-CHUNK_SIZE`)
+    FreeHandOver {
+        /// ID of the slot
+        slot: u32,
+        /// Previous head of the thread-local free list
+        prev: u32,
+        /// Head pushed onto the shared stack
+        head: u32,
+        /// Value added to the shared node count
+        delta: i32,
+        /// Thread-local `next_free` after the operation
+        local_after: u32,
+    },
+    /// The gc thread finished a collection and handed its thread-local free
+    /// list over (`head == 0`: there was none, nothing was pushed)
+    GcHandOver {
+        /// Head pushed onto the shared stack or 0
+        head: u32,
+        /// Value added to the shared node count
+        delta: i32,
+        /// Thread-local `next_free` after the operation
+        local_after: u32,
+    },
+    /// A `LocalStoreStateGuard` was dropped. `returned` says whether
+    /// `return_preallocated()` ran; if so, `head` is the head pushed onto the
+    /// shared stack (0: none), `start..end` the range of pre-allocated
+    /// uninitialized slots (indices) that was linked in front of the
+    /// thread-local list (`start == end`: none), and `delta` the value added to
+    /// the shared node count.
+    SessionEnd {
+        /// Whether `return_preallocated()` ran
+        returned: bool,
+        /// Head pushed onto the shared stack or 0
+        head: u32,
+        /// First pre-allocated slot index
+        start: u32,
+        /// End (exclusive) of the pre-allocated slot indices
+        end: u32,
+        /// Value added to the shared node count
+        delta: i32,
+    },
+}
+
+/// Entry of the event log
+#[derive(Clone, Copy, PartialEq, Eq, Debug)]
+pub struct Event {
+    /// Address of the store (distinguishes managers)
+    pub store: usize,
+    /// Small integer identifying the thread (see
+    /// [`verif_locks::thread_names()`][super::verif_locks::thread_names])
+    pub thread: u32,
+    /// Kind of event
+    pub kind: Kind,
+    /// Snapshot of the shared state if the operation touched it
+    pub shared: Option<Shared>,
+}
+
+static ENABLED: AtomicBool = AtomicBool::new(false);
+static LOG: Mutex<Vec<Event>> = Mutex::new(Vec::new());
+
+/// Switch the event log on or off (default: off)
+pub fn enable(on: bool) {
+    ENABLED.store(on, Relaxed);
+}
+
+/// Whether the event log is switched on
+#[inline(always)]
+pub fn enabled() -> bool {
+    ENABLED.load(Relaxed)
+}
+
+/// Remove and return all events logged so far (in the global order in which
+/// they were appended)
+pub fn take_events() -> Vec<Event> {
+    std::mem::take(&mut *LOG.lock().unwrap_or_else(|e| e.into_inner()))
+}
+
+#[cold]
+fn push(store: usize, kind: Kind, shared: Option<Shared>) {
+    let thread = super::verif_locks::current_thread();
+    LOG.lock().unwrap_or_else(|e| e.into_inner()).push(Event {
+        store,
+        thread,
+        kind,
+        shared,
+    });
+}
+
+/// Log an event of the current thread
+#[inline(always)]
+pub fn log(store: usize, kind: Kind, shared: Option<Shared>) {
+    if enabled() {
+        push(store, kind, shared);
+    }
+}
